@@ -57,6 +57,9 @@ def oracle_table(model):
                 tab.append([kind, [ev(c[1]), ev(c[2])], ev(c[3])])
             elif kind == "pbkdf2":
                 tab.append([kind, [c[1], ev(c[2]), ev(c[3]), c[4], c[5]], ev(c[6])])
+            elif kind == "ckd":
+                # application of the child-derivation contract (parent key, chain code, index -> child key, chain code)
+                tab.append([kind, [ev(c[1]), ev(c[2]), ev(c[3])], ev(c[4]) + ev(c[5])])
         except Exception:
             pass
     return tab
@@ -610,6 +613,19 @@ class NativeOracle:
         self.seen_args = set()
         self.table = {}
         for kind, args, out in (table or []):
+            if kind == "ckd":
+                # the PRF output that makes the real CKDpriv produce exactly this child: IL = child - parent (mod n), IR = chain code
+                try:
+                    k, c, i = int(args[0], 16), bytes.fromhex(args[1]), int(args[2], 16)
+                    ck, cc = int(out[:64], 16), out[64:]
+                    if not (1 <= k < N and 1 <= ck < N):
+                        continue
+                    data = (b"\x00" + k.to_bytes(32, "big") if i >= 2 ** 31 else self.sec(k)) + i.to_bytes(4, "big")
+                    il = (ck - k) % N
+                    self.table[("hmac512", (c.hex(), data.hex()))] = "%064x" % il + cc
+                except Exception:
+                    pass
+                continue
             self.table[(kind, tuple(args) if kind != "pbkdf2" else (args[0], args[1], args[2], args[3], args[4]))] = out
 
     def _t(self, kind, *args):
